@@ -1,7 +1,7 @@
 """C04 configuration for ./check (keys: see checks/propcfg.py)."""
 CFG = {
-    "modules": ["VaxisModel.Props.C04"],
-    "extractors": ["C04", "C07", "C18", "C11", "C01"],
+    "modules": ["VaxisModel.Props.C04", "VaxisModel.Props.C04Exit"],
+    "extractors": ["C04", "C07", "C18", "C11", "C01", "C10"],
     "drivers": ["C04"],
     "stateful": True,
     "trivial_prefix": ("-",),
@@ -37,7 +37,8 @@ CFG = {
                   "Validated by correspondence only: that the model's token lists are the real bytes (incl. the writer prologue/epilogue and the direct-mapped run-time writes at real values); the signal path "
                   "(Close on the input goroutine) and panic path (an injected malformed report makes handleSequence panic in a child process; recover -> Close -> re-panic) are also exercised dynamically. "
                   "Which goroutine runs Close and whether it can block is C10's LTS: since round 3 (F13, F53, F210 repaired in /repo) C10.shutdown_completes / close_completes "
-                  "hold with no hypothesis on the queue, the consumer, signals or the calling goroutine, so every exit path reaches its end on every schedule; the join of that theorem with "
-                  "signal_path_is_close / panic_path_is_close / balanced is an argument in the notes, not a Lean theorem. Real-time and OS behaviour (signals, console reset) not modelled.",
+                  "hold with no hypothesis on the queue, the consumer, signals or the calling goroutine, so every exit path reaches its end on every schedule; Props/C04Exit joins the two halves in Lean: exit_path_completes "
+                  "(from every invariant state, once the input goroutine has taken its kill-signal arm or caught a panic, every maximal run ends with Close returned, everything done, chQuit closed once) and "
+                  "exit_paths_complete_and_restore (… and what the path writes is what Close writes). Real-time and OS behaviour (signals, console reset) not modelled.",
     "assumptions": ["the fake console answers DA1 at once (Suspend's provoke-a-reply dance terminates)"],
 }
